@@ -161,6 +161,104 @@ class TraceStore(WrapperStore):
         return isinstance(other, TraceStore) and self._store == other._store
 
 
+class FileTraceStore(WrapperStore):
+    """Picklable tracing wrapper for runs whose tasks execute in other processes (the processes executor): every access is
+    appended to <logdir>/<pid>.log as one JSON line with CLOCK_MONOTONIC timestamps (system-wide on Linux, so lines of
+    different processes are comparable).  A `get` is stamped BEFORE the wrapped store is asked, a `set` AFTER the wrapped
+    store has returned, so `get.t < set.t` for one key means the read was issued before the write had completed.
+    Chunk writes are delayed by a key-dependent latency (a pure function of lat_seed and key)."""
+
+    _supports_sync_io = False
+
+    def __init__(self, store, logdir, lat_seed=None, lat_ms=5, lat_levels=6):
+        super().__init__(store)
+        self.logdir = logdir
+        self.lat_seed = lat_seed
+        self.lat_ms = lat_ms
+        self.lat_levels = lat_levels
+        os.makedirs(logdir, exist_ok=True)
+
+    def _with_store(self, store):
+        return type(self)(store, self.logdir, self.lat_seed, self.lat_ms, self.lat_levels)
+
+    def with_read_only(self, read_only: bool = False):
+        return type(self)(self._store.with_read_only(read_only), self.logdir, self.lat_seed, self.lat_ms, self.lat_levels)
+
+    def _log(self, op, key, info=None, t=None):
+        import json
+
+        line = json.dumps([t if t is not None else time.monotonic_ns(), os.getpid(), op, key, info])
+        try:
+            with open(os.path.join(self.logdir, f"{os.getpid()}.log"), "a") as f:
+                f.write(line + "\n")
+        except OSError:
+            pass  # the case is over and its scratch directory is gone (a straggling access of an abandoned task)
+
+    def _latency(self, key):
+        if self.lat_seed is None:
+            return 0.0
+        h = hashlib.blake2b(f"{self.lat_seed}:{key}".encode(), digest_size=2).digest()
+        return (h[0] % self.lat_levels) * self.lat_ms / 1000.0
+
+    async def get(self, key, prototype, byte_range=None):
+        t = time.monotonic_ns()
+        r = await self._store.get(key, prototype, byte_range)
+        self._log("get", key, r is not None, t)
+        return r
+
+    async def get_partial_values(self, prototype, key_ranges):
+        key_ranges = list(key_ranges)
+        t = time.monotonic_ns()
+        r = await self._store.get_partial_values(prototype, key_ranges)
+        for (k, _), v in zip(key_ranges, r):
+            self._log("get", k, v is not None, t)
+        return r
+
+    async def set(self, key, value):
+        if is_chunk_key(key):
+            d = self._latency(key)
+            if d:
+                import asyncio
+
+                self._log("set-start", key)
+                await asyncio.sleep(d)
+        r = await self._store.set(key, value)
+        self._log("set", key)
+        return r
+
+    async def set_if_not_exists(self, key, value):
+        r = await self._store.set_if_not_exists(key, value)
+        self._log("set_if_not_exists", key)
+        return r
+
+    async def delete(self, key):
+        self._log("delete", key)
+        return await self._store.delete(key)
+
+    async def delete_dir(self, prefix):
+        self._log("delete_dir", prefix)
+        return await self._store.delete_dir(prefix)
+
+    def __eq__(self, other):
+        return isinstance(other, FileTraceStore) and self._store == other._store and self.logdir == other.logdir
+
+
+def read_file_trace(logdir):
+    """-> list of (t_ns, pid, op, key, info), merged over all processes and sorted by time."""
+    import glob
+    import json
+
+    out = []
+    for fn in glob.glob(os.path.join(logdir, "*.log")):
+        with open(fn) as f:
+            for line in f:
+                line = line.strip()
+                if line:
+                    out.append(tuple(json.loads(line)))
+    out.sort(key=lambda r: r[0])
+    return out
+
+
 # --------------------------------------------------------------------------- callbacks
 class RecordingCallback(Callback):
     def __init__(self):
